@@ -374,6 +374,17 @@ func c11Rules(c *Ctx) {
 	add("todo-false-not-exempt", "services:\n  svc:\n    todo: false\n    getter: \"1 bad\"\n    value: \"V\"\n", false, "svc")
 	add("todo-name-still-checked", "services:\n  \"bad name\":\n    todo: true\n", false, "bad name")
 	add("getter-must-prefix", "services:\n  svc:\n    value: \"V\"\n    getter: \"MustGet\"\n", false, "svc")
+	// the whole family: Must followed by anything (nothing, lower case, upper case, digit, underscore, a word), anything followed by
+	// InContext; look-alikes stay legal
+	for _, x := range []string{"", "a", "A", "0", "_", "ang", "ard", "er", "GetX", "_x", "1", "x1", "erRoll", "InContext"} {
+		add("getter-must-prefix:Must"+x, "services:\n  svc:\n    value: \"V\"\n    getter: \"Must"+x+"\"\n", false, "svc")
+	}
+	for _, x := range []string{"a", "A", "Get", "x_", "X0", "get", "Muster"} {
+		add("getter-incontext-suffix:"+x+"InContext", "services:\n  svc:\n    value: \"V\"\n    getter: \""+x+"InContext\"\n", false, "svc")
+	}
+	for _, x := range []string{"mustGet", "MUSTGet", "Mus", "Mustx"[:3] + "T", "muster", "GetIncontext", "InContextX", "Incontext", "GetInContext2", "GetInContexts", "inContext", "MusT", "Mmust", "AMust"} {
+		add("getter-look-alike:"+x, "services:\n  svc:\n    value: \"V\"\n    getter: \""+x+"\"\n", true)
+	}
 	add("getter-incontext-suffix", "services:\n  svc:\n    value: \"V\"\n    getter: \"GetInContext\"\n", false, "svc")
 	add("getter-reserved", "services:\n  svc:\n    value: \"V\"\n    getter: \"GetParam\"\n", false, "svc")
 	add("getter-ok", "services:\n  svc:\n    value: \"V\"\n    getter: \"GetParam2\"\n", true)
